@@ -147,9 +147,7 @@ func (s *System) Start() error {
 	// 守护系统上下文
 	go func() {
 		<-s.options.Context.Done()
-		s.statusLock.Lock()
-		defer s.statusLock.Unlock()
-		_ = s.stop(false) // 无意义错误
+		_ = s.stop(false) // 无意义错误；状态锁由 stop 内部获取，此处不可再持有（sync.Mutex 不可重入）
 	}()
 	return nil
 }
